@@ -7,6 +7,7 @@ import (
 	"github.com/FollowTheProcess/spok/parser"
 	"os"
 	"path/filepath"
+	"regexp"
 	"strings"
 	"syscall"
 	"testing"
@@ -127,6 +128,7 @@ func TestPlan(t *testing.T) {
 		p.Shards = append(p.Shards, ev.ShardSpec{Name: "inprocess-0", Test: "^TestVarsInProcess$", TimeoutS: 600})
 	case "C09":
 		binShards("^TestFail$", 16, 60, 32, 4000)
+		p.Shards = append(p.Shards, ev.ShardSpec{Name: "failtemplates-0", Test: "^TestFailTemplates$", TimeoutS: 900})
 	case "C20":
 		binShards("^TestReport$", 16, 40, 32, 3000)
 	case "C19":
@@ -165,6 +167,7 @@ func TestPlan(t *testing.T) {
 		p.Shards = append(p.Shards, ev.ShardSpec{Name: "deep-0", Test: "^TestFindDeep$", TimeoutS: 1200})
 		p.Shards = append(p.Shards, ev.ShardSpec{Name: "names-0", Test: "^TestFindNames$", TimeoutS: 600})
 		p.Shards = append(p.Shards, ev.ShardSpec{Name: "history-0", Test: "^TestFindHistory$", TimeoutS: 600})
+		p.Shards = append(p.Shards, ev.ShardSpec{Name: "crowded-0", Test: "^TestFindCrowded$", TimeoutS: 900})
 	}
 	if err := ev.WritePlan(p); err != nil {
 		t.Fatal(err)
@@ -444,6 +447,121 @@ func TestFindNames(t *testing.T) {
 	}
 }
 
+// TestFindCrowded: (a) directories with very many entries (1 023, 1 024, 1 025, 5 000) in which the
+// spokfile was created first or last (where it comes in the raw listing is the file system's
+// business), with another spokfile one level up as a decoy; (b) start directories reached through a
+// link that names one of their own ancestors (`self -> .`, `up -> ..`): the climb is over the names
+// in the path, and an enclosing spokfile is found however often a real directory is passed.
+func TestFindCrowded(t *testing.T) {
+	s := ev.Open(t, "C17")
+	s.Watchdog(10*time.Second, 4<<30)
+	defer s.Done()
+	if f := execFindCrowded(t, s); f != nil || s.Failed() {
+		t.Fatal("violations recorded")
+	}
+}
+
+// execFindCrowded runs the whole space; with s == nil (replay) it only returns the first failure.
+func execFindCrowded(t *testing.T, s *ev.Shard) *rp.Fail {
+	base := findBase(t)
+	seen := map[string]bool{}
+	var idx uint64
+	var first *rp.Fail
+	judge := func(class string, c map[string]any, start, stop, want string) {
+		idx++
+		data, _ := json.Marshal(c)
+		if s != nil {
+			s.Progress(idx, data)
+			s.Tick()
+			s.Eval()
+			s.Class(class)
+			s.NonTrivial(class + string(data))
+		}
+		got, err := file.Find(nopLogger{}, start, stop)
+		sig, msg := "", ""
+		switch {
+		case want == "" && err == nil:
+			sig, msg = "found-above-stop", fmt.Sprintf("%v: no spokfile between start and stop, Find returned %s", c, rel(base, got))
+		case want != "" && err != nil:
+			sig, msg = "spokfile-missed", fmt.Sprintf("%v: the nearest spokfile is %s, Find reported %v", c, rel(base, want), err)
+		case want != "" && got != want:
+			sig, msg = "wrong-spokfile", fmt.Sprintf("%v: the nearest spokfile is %s, Find returned %s", c, rel(base, want), rel(base, got))
+		}
+		if sig != "" && first == nil {
+			first = &rp.Fail{Sig: sig, Msg: msg, Size: 3}
+		}
+		if sig != "" && !seen[sig] && s != nil {
+			seen[sig] = true
+			s.Violation("find-crowded", sig, msg, 3, c)
+		}
+	}
+	w := func(p string) {
+		if err := os.WriteFile(p, []byte("# x\n"), 0o644); err != nil {
+			t.Fatal(err)
+		}
+	}
+	for _, n := range []int{1023, 1024, 1025, 5000} {
+		for _, spokFirst := range []bool{true, false} {
+			for _, decoy := range []bool{true, false} {
+				_ = os.RemoveAll(base)
+				top, crowd := filepath.Join(base, "L"), filepath.Join(base, "L", "crowd")
+				deep := filepath.Join(crowd, "zz-sub")
+				if err := os.MkdirAll(deep, 0o755); err != nil {
+					t.Fatal(err)
+				}
+				if decoy {
+					w(filepath.Join(top, "spokfile"))
+				}
+				if spokFirst {
+					w(filepath.Join(crowd, "spokfile"))
+				}
+				for i := 0; i < n; i++ {
+					w(filepath.Join(crowd, fmt.Sprintf("entry-%05d.txt", i)))
+				}
+				if !spokFirst {
+					w(filepath.Join(crowd, "spokfile"))
+				}
+				c := map[string]any{"other_entries": n, "spokfile_created_first": spokFirst, "another_spokfile_one_level_up": decoy}
+				judge("directory_with_very_many_entries", c, deep, top, filepath.Join(crowd, "spokfile"))
+				judge("directory_with_very_many_entries", c, crowd, base, filepath.Join(crowd, "spokfile"))
+			}
+		}
+	}
+	// links that name an ancestor
+	for _, where := range []string{"L", "L/proj", "none"} {
+		_ = os.RemoveAll(base)
+		proj := filepath.Join(base, "L", "proj")
+		if err := os.MkdirAll(filepath.Join(proj, "pkg"), 0o755); err != nil {
+			t.Fatal(err)
+		}
+		_ = os.Symlink(".", filepath.Join(proj, "self"))
+		_ = os.Symlink("..", filepath.Join(proj, "pkg", "up"))
+		want := ""
+		if where != "none" {
+			want = filepath.Join(base, filepath.FromSlash(where), "spokfile")
+			w(want)
+		}
+		for _, startRel := range []string{"self", "self/pkg", "pkg/up", "pkg/up/pkg", "pkg/up/pkg/up", "self/self/pkg/up/self"} {
+			start := filepath.Join(proj, filepath.FromSlash(startRel))
+			// the nearest spokfile by the names on the path: the first directory from start upwards that holds one
+			expect := ""
+			for d := start; ; d = filepath.Dir(d) {
+				if p, ok := regularSpokfile(d); ok {
+					expect = p
+					break
+				}
+				if d == base || d == filepath.Dir(d) {
+					break
+				}
+			}
+			_ = want
+			c := map[string]any{"spokfile_in": where, "start": "L/proj/" + startRel, "links": "proj/self -> . ; proj/pkg/up -> .."}
+			judge("start_through_a_link_to_its_own_ancestor", c, start, base, expect)
+		}
+	}
+	return first
+}
+
 // TestFindHistory: one process searches again and again while spokfiles come and go on the chain:
 // every sequence of up to three changes (a spokfile appears at / disappears from one of three levels),
 // a search after each, for two stop directories. A search knows nothing of the one before.
@@ -631,6 +749,18 @@ func replayOther(t *testing.T, v ev.Violation, raw []byte) *rp.Fail {
 		return execVarsInProcess(t, nil)
 	case "readfault":
 		return execReadFaults(t, nil, newBox(t))
+	case "find-crowded":
+		return execFindCrowded(t, nil)
+	case "failtemplate":
+		return execFailTemplates(nil, newBox(t), nil)
+	case "slowcmd":
+		var c struct {
+			Nap int `json:"sleep_seconds"`
+		}
+		if err := json.Unmarshal(raw, &c); err != nil || c.Nap == 0 {
+			c.Nap = 16
+		}
+		return execSlow(newBox(t), c.Nap)
 	case "unpriv-find":
 		var c PermCase
 		if err := json.Unmarshal(raw, &c); err != nil {
@@ -917,12 +1047,43 @@ func TestErrBinary(t *testing.T) {
 	})
 }
 
+// execSlow: two tasks, the first of which sleeps nap seconds; everything runs, in order.
+func execSlow(b *sandbox.Box, nap int) *rp.Fail {
+	if err := b.ResetAs(""); err != nil {
+		return &rp.Fail{Sig: "harness", Msg: err.Error()}
+	}
+	src := fmt.Sprintf("task slow() {\n    echo begin1 >> $LOG\n    sleep %d\n    echo end1 >> $LOG\n}\n\ntask after(slow) {\n    echo begin0 >> $LOG\n    echo end0 >> $LOG\n}\n", nap)
+	if err := writeProject(b, b.Proj, map[string]string{"spokfile": src}); err != nil {
+		return &rp.Fail{Sig: "harness", Msg: err.Error()}
+	}
+	logPath := filepath.Join(b.Home, "run.log")
+	r := b.Run(b.Proj, []string{"LOG=" + logPath}, time.Duration(nap+60)*time.Second, "after")
+	if log := readLog(logPath); r.Exit != 0 || strings.Join(log, " ") != "begin1 end1 begin0 end0" {
+		return &rp.Fail{Sig: "unexpected-error", Size: 2, Msg: fmt.Sprintf("spokfile:\n%s`spok after` (no command fails; the first one sleeps %d s): exit %d, log %v, stderr %s", src, nap, r.Exit, log, clip(sandbox.Strip(r.Stderr)))}
+	}
+	return nil
+}
+
 // TestGraphTemplates: every spelling of a name that names no task x its place among the requested
 // names x flags, on a two-task chain; and the same requests with every name defined.
 func TestGraphTemplates(t *testing.T) {
 	s := ev.Open(t, "C03")
 	b := newBox(t)
 	seen := map[string]bool{}
+	// a command that simply takes its time (a build, a download): longer than a quarter of a minute, in
+	// the thorough tier longer than a minute. Nothing fails, so everything runs, in order.
+	naps := []int{16}
+	if ev.Thorough() {
+		naps = append(naps, 61)
+	}
+	for _, nap := range naps {
+		s.Eval()
+		s.Class("a_command_that_takes_its_time")
+		s.NonTrivial(fmt.Sprint("nap", nap))
+		if f := execSlow(b, nap); f != nil {
+			s.Violation("slowcmd", f.Sig, f.Msg, 2, map[string]any{"sleep_seconds": nap})
+		}
+	}
 	spellings := []string{"notatask", "", " ", "\t", "  ", "ALPHA", "alpha ", " alpha", "alph", "alphaa", "alpha,bravo", "-"}
 	for _, flags := range [][]string{nil, {"--force"}, {"--json"}, {"--quiet"}} {
 		for _, req := range [][]int{{0}, {1}, {0, 1}, {1, 0}} {
@@ -1221,11 +1382,15 @@ func execReadFaults(t *testing.T, s *ev.Shard, b *sandbox.Box) *rp.Fail {
 				_, _ = f.WriteString(src[cut:])
 			}()
 			r := b.Run(b.Proj, nil, runTimeout, action)
-			if r.TimedOut {
-				// nobody opened the pipe for reading: unblock the writer
-				if f, err := os.OpenFile(path, os.O_RDONLY|syscall.O_NONBLOCK, 0); err == nil {
-					_ = f.Close()
-				}
+			// whether or not spok opened the pipe: a reader of our own lets the writer finish (it may still
+			// be waiting for someone to open the other end), and goes away once it has
+			unblock, _ := os.OpenFile(path, os.O_RDONLY|syscall.O_NONBLOCK, 0)
+			select {
+			case <-done:
+			case <-time.After(10 * time.Second):
+			}
+			if unblock != nil {
+				_ = unblock.Close()
 			}
 			<-done
 			if r.Exit == 0 && sandbox.Strip(r.Stdout) != baseline[action] {
@@ -1256,6 +1421,102 @@ func TestFail(t *testing.T) {
 		}
 		return execFail(s, b, c)
 	})
+}
+
+// TestFailTemplates (C09): (a) many failing tasks in one invocation - 1, 2, 255, 256, 257, 512, 1000 of
+// them, each with its own failing command - under {plain, --json, --quiet, --force}: a non-zero exit and
+// an error that names one of them, whatever their number; (b) a failing command much longer than a
+// terminal is wide, with the variables a terminal sets (COLUMNS, LINES, TERM) in the environment: the
+// error still names the task.
+func TestFailTemplates(t *testing.T) {
+	s := ev.Open(t, "C09")
+	b := newBox(t)
+	seen := map[string]bool{}
+	report := func(sig, msg string, c any) {
+		if !seen[sig] {
+			seen[sig] = true
+			s.Violation("failtemplate", sig, msg, 2, c)
+		}
+	}
+	if f := execFailTemplates(s, b, report); f != nil || s.Failed() {
+		t.Fatal("violations recorded")
+	}
+}
+
+func execFailTemplates(s *ev.Shard, b *sandbox.Box, report func(sig, msg string, c any)) *rp.Fail {
+	var first *rp.Fail
+	fail := func(sig, msg string, c any) {
+		if first == nil {
+			first = &rp.Fail{Sig: sig, Msg: msg, Size: 2}
+		}
+		if report != nil {
+			report(sig, msg, c)
+		}
+	}
+	eval := func(class string, c any) {
+		if s != nil {
+			s.Eval()
+			s.Class(class)
+			s.NonTrivial(class + fmt.Sprint(c))
+		}
+	}
+	for _, n := range []int{1, 2, 255, 256, 257, 512, 1000} {
+		var sb strings.Builder
+		var names []string
+		for i := 0; i < n; i++ {
+			name := "t" + gen.Letters(i)
+			names = append(names, name)
+			fmt.Fprintf(&sb, "task %s() {\n    exit %d\n}\n\n", name, 1+i%7)
+		}
+		for _, flags := range [][]string{nil, {"--json"}, {"--quiet"}, {"--force"}} {
+			if err := b.ResetAs(""); err != nil {
+				return &rp.Fail{Sig: "harness", Msg: err.Error()}
+			}
+			if err := writeProject(b, b.Proj, map[string]string{"spokfile": sb.String()}); err != nil {
+				return &rp.Fail{Sig: "harness", Msg: err.Error()}
+			}
+			c := map[string]any{"failing_tasks_requested": n, "flags": flags}
+			eval("many_failing_tasks_in_one_invocation", c)
+			r := b.Run(b.Proj, nil, 2*runTimeout, append(append([]string(nil), flags...), names...)...)
+			stderr := sandbox.Strip(r.Stderr)
+			if r.Exit == 0 {
+				fail("failure-exits-zero", fmt.Sprintf("%d tasks, each with a failing command, requested in one invocation (flags %v): spok exited 0; stderr: %s", n, flags, clip(stderr)), c)
+				continue
+			}
+			named := false
+			for _, nm := range names {
+				if regexp.MustCompile(`\b` + nm + `\b`).MatchString(stderr) {
+					named = true
+					break
+				}
+			}
+			if !named {
+				fail("failing-task-not-identified", fmt.Sprintf("%d failing tasks requested (flags %v): exit %d, but the error names none of them: %q", n, flags, r.Exit, clip(stderr)), c)
+			}
+		}
+	}
+	long := "echo " + strings.Repeat("a-rather-long-argument ", 12) + "&& exit 4"
+	src := "task release() {\n    " + long + "\n}\n"
+	for _, env := range [][]string{nil, {"COLUMNS=80", "LINES=24"}, {"COLUMNS=40", "LINES=24", "TERM=xterm-256color"}, {"COLUMNS=20"}, {"COLUMNS=0"}, {"COLUMNS=1"}} {
+		for _, flags := range [][]string{nil, {"--json"}, {"--quiet"}} {
+			if err := b.ResetAs(""); err != nil {
+				return &rp.Fail{Sig: "harness", Msg: err.Error()}
+			}
+			if err := writeProject(b, b.Proj, map[string]string{"spokfile": src}); err != nil {
+				return &rp.Fail{Sig: "harness", Msg: err.Error()}
+			}
+			c := map[string]any{"failing_command_length": len(long), "environment": env, "flags": flags}
+			eval("long_failing_command_with_terminal_variables", c)
+			r := b.Run(b.Proj, env, runTimeout, append(append([]string(nil), flags...), "release")...)
+			stderr := sandbox.Strip(r.Stderr)
+			if r.Exit == 0 {
+				fail("failure-exits-zero", fmt.Sprintf("a failing command of %d characters in task release (environment %v, flags %v): spok exited 0", len(long), env, flags), c)
+			} else if !regexp.MustCompile(`\brelease\b`).MatchString(stderr) {
+				fail("failing-task-not-identified", fmt.Sprintf("a failing command of %d characters in task release (environment %v, flags %v): exit %d, but the error does not name the task: %q", len(long), env, flags, r.Exit, clip(stderr)), c)
+			}
+		}
+	}
+	return first
 }
 
 func TestReport(t *testing.T) {
